@@ -41,6 +41,9 @@ type world struct {
 	gate     chan struct{} // work that "never returns" parks here until main opens it
 	gateOpen bool
 	gateUsed bool
+	nGated   int // works that are parked (at the gate or inside a copy from a stalled source) and still running
+
+	hist int // calls of the history (made before the judged calls; their work is still running)
 
 	cancels    []context.CancelFunc
 	cancellers []*simrt.Task
@@ -53,6 +56,38 @@ func (w *world) tick() int { w.seq++; return w.seq }
 var timeoutTable = []time.Duration{
 	100 * time.Millisecond, time.Millisecond, 5 * time.Millisecond, 30 * time.Millisecond,
 	time.Second, 3 * time.Second, 10 * time.Second,
+}
+
+// The history: earlier calls on the same wrapper (fx: in the same process) whose work ignores
+// its timeout and is STILL running - it is released only at the end of the run - when the
+// calls of the run proper are made.  1 run in 8 has one; its length is one of the landmarks
+// or anything in 1..40.  Orphaned work is legitimate: every call, of the history or later,
+// has to return at its own deadline with the timeout result whatever number of earlier
+// functions / handlers are still running.  lanes: the history calls are made one after the
+// other (1) or by that many concurrent callers.
+var histLandmarks = []int{15, 16, 17, 32, 33}
+
+// histSampled: of the history only the first calls are written out in the evidence sample
+const histSampled = 3
+
+func drawHistory(t *simrt.Tape) (hist, lanes int) {
+	v := t.Intn(48)
+	switch {
+	case v < 42:
+		return 0, 1
+	case v == 42:
+		hist = t.Range(1, 40)
+	default:
+		hist = histLandmarks[v-43]
+	}
+	lanes = 1
+	switch t.Intn(4) {
+	case 2:
+		lanes = min(4, hist)
+	case 3:
+		lanes = hist
+	}
+	return hist, lanes
 }
 
 func drawTimeout(t *simrt.Tape) time.Duration {
@@ -156,6 +191,8 @@ type call struct {
 	noTimeout bool
 	wk  *work
 	pre time.Duration // think time before the call
+	// stuck: a call of the history (its work is still running when the run proper starts)
+	stuck bool
 
 	t0, tRet     time.Time
 	callerDL     time.Time // zero: none
@@ -271,6 +308,31 @@ func (c *call) checkReturnTime(pfx string) {
 	}
 }
 
+// noteReturn records, at the instant a wrapper call returned, how much orphaned work of
+// earlier calls was still running.
+func (c *call) noteReturn() {
+	w, r := c.w, c.w.r
+	own := 0
+	if c.wk.atGate {
+		own = 1
+	}
+	switch others := w.nGated - own; {
+	case others >= 32:
+		r.Probe("returned-while-32+-earlier-works-still-running")
+		fallthrough
+	case others >= 16:
+		r.Probe("returned-while-16+-earlier-works-still-running")
+		fallthrough
+	case others >= 1:
+		r.Probe("returned-while-earlier-work-still-running")
+	}
+	if c.stuck {
+		r.Probe("history-call-judged")
+	} else if w.hist > 0 {
+		r.Probe("call-judged-after-history")
+	}
+}
+
 func body(r *simrt.Run, tier string) {
 	t := r.Tape
 	w := &world{r: r, tier: tier, exact: !stallOn, gate: make(chan struct{})}
@@ -285,32 +347,73 @@ func body(r *simrt.Run, tier string) {
 	}
 	comp := t.Intn(4)
 	n := t.Range(1, maxCalls)
+	hist, lanes := 0, 1
+	if comp != 2 {
+		// the zrpc client interceptor is synchronous: it leaves no work behind
+		hist, lanes = drawHistory(t)
+	}
+	w.hist = hist
+	// run(i): call i; 0..n-1 are the calls of the run proper, n..n+hist-1 the history
 	var run func(i int)
 	var finish func()
 	var name string
 	switch comp {
 	case 0:
 		name = "rest"
-		run, finish = w.setupRest(n)
+		run, finish = w.setupRest(n, hist)
 	case 1:
 		name = "rpcsrv"
-		run, finish = w.setupRpcServer(n)
+		run, finish = w.setupRpcServer(n, hist)
 	case 2:
 		name = "rpccli"
 		run, finish = w.setupRpcClient(n)
 	default:
 		name = "fx"
-		run, finish = w.setupFx(n)
+		run, finish = w.setupFx(n, hist)
+	}
+	ok := true
+	var callers []*simrt.Task
+	if hist > 0 {
+		r.Probe("history-of-stuck-calls")
+		if hist >= 16 {
+			r.Probe("history-of-16+-stuck-calls")
+		}
+		if hist >= 32 {
+			r.Probe("history-of-32+-stuck-calls")
+		}
+		if lanes > 1 {
+			r.Probe("history-made-by-concurrent-callers")
+		}
+		var hs []*simrt.Task
+		for l := 0; l < lanes; l++ {
+			l := l
+			hs = append(hs, r.Go(fmt.Sprintf("history%d", l), func() {
+				for j := l; j < hist; j += lanes {
+					run(n + j)
+				}
+			}))
+		}
+		callers = hs
+		// every call of the history returns at its deadline although none of the works does
+		if ok = r.JoinTimeout(12*time.Hour, hs...); !ok {
+			r.Fail(name+"/no-return", "a history of %d calls whose work ignores the timeout (%d of them parked and still running): the calls did not all return within 12h of virtual time: %v", hist, w.nGated, r.AliveTasks())
+		}
+		if w.nGated >= 16 {
+			r.Probe("16+-works-still-running-when-the-judged-calls-start")
+		}
 	}
 	var clients []*simrt.Task
-	for i := 0; i < n; i++ {
-		i := i
-		clients = append(clients, r.Go(fmt.Sprintf("client%d", i), func() { run(i) }))
-	}
-	// (b) liveness form: the wrappers return although gated work never does.
-	ok := r.JoinTimeout(12*time.Hour, clients...)
-	if !ok {
-		r.Fail(name+"/no-return", "wrapper calls did not return within 12h of virtual time while the work was stalled: %v", r.AliveTasks())
+	if ok {
+		for i := 0; i < n; i++ {
+			i := i
+			clients = append(clients, r.Go(fmt.Sprintf("client%d", i), func() { run(i) }))
+		}
+		callers = append(callers, clients...)
+		// (b) liveness form: the wrappers return although gated work never does.
+		ok = r.JoinTimeout(12*time.Hour, clients...)
+		if !ok {
+			r.Fail(name+"/no-return", "wrapper calls did not return within 12h of virtual time while the work was stalled (%d works parked and still running): %v", w.nGated, r.AliveTasks())
+		}
 	}
 	if w.gateUsed {
 		r.Probe("work-gated-until-wrapper-returned")
@@ -318,7 +421,7 @@ func body(r *simrt.Run, tier string) {
 	w.gateOpen = true
 	simrt.Close("gate", w.gate)
 	if !ok {
-		r.JoinTimeout(time.Hour, clients...)
+		r.JoinTimeout(time.Hour, callers...)
 	}
 	r.JoinTimeout(time.Hour, w.cancellers...)
 	for _, cf := range w.cancels {
